@@ -25,6 +25,22 @@ pub fn make_gate(d: &Value) -> Result<(Gate, Value), String> {
             let o = json!([hexf(a.exp().re), hexf(a.exp().im), hexf(a.cosh().re), hexf(a.cosh().im), hexf(a.sinh().re), hexf(a.sinh().im)]);
             Ok((Gate::PauliTimeEvolution(ps, dt), o))
         }
+        // Gate::Parametric built directly from the public enum variant (any target / control lists)
+        "param" => {
+            use quant_iron::parameter::Parameter;
+            use quant_iron::parametric_gate::*;
+            let v = vfs(&d["vals"]);
+            let pg: Box<dyn ParametricGate> = match d["kind"].as_str().unwrap() {
+                "RX" => Box::new(ParametricRx { parameter: Parameter::new([v[0]]) }),
+                "RY" => Box::new(ParametricRy { parameter: Parameter::new([v[0]]) }),
+                "RZ" => Box::new(ParametricRz { parameter: Parameter::new([v[0]]) }),
+                "P" => Box::new(ParametricP { parameter: Parameter::new([v[0]]) }),
+                "RyPhase" => Box::new(ParametricRyPhase { parameter: Parameter::new([v[0], v[1]]) }),
+                "RyPhaseDag" => Box::new(ParametricRyPhaseDag { parameter: Parameter::new([v[0], v[1]]) }),
+                _ => Box::new(ParametricMatchgate { parameter: Parameter::new([v[0], v[1], v[2]]) }),
+            };
+            Ok((Gate::Parametric(pg, vus(&d["ts"]), vus(&d["cs"])), json!([])))
+        }
         k => Err(format!("gate descriptor {}", k)),
     }
 }
